@@ -98,13 +98,8 @@ def classes_of(p, workers):
 
 
 # --------------------------------------------------------------------- running
-def run_cli(binpath, tmpdir, idx, vpl, evt, workers, preload, extra):
-    pv = os.path.join(tmpdir, "p%d.vpl" % idx)
-    pe = os.path.join(tmpdir, "e%d.evt" % idx)
-    if not os.path.exists(pv):
-        open(pv, "w").write(vpl)
-    open(pe, "w").write(evt)
-    cmd = [binpath, "simulate", "-p", pv, "-e", pe, "--immediate", "--workers", str(workers)] + (["--preload"] if preload else []) + list(extra)
+def run_cli_once(binpath, pv, pe, workers, preload, extra, quiet=False):
+    cmd = [binpath, "simulate", "-p", pv, "-e", pe, "--immediate", "--workers", str(workers)] + (["--preload"] if preload else []) + list(extra) + (["--quiet"] if quiet else [])
     try:
         r = subprocess.run(cmd, capture_output=True, text=True, timeout=120)
     except subprocess.TimeoutExpired:
@@ -117,6 +112,32 @@ def run_cli(binpath, tmpdir, idx, vpl, evt, workers, preload, extra):
         if l.startswith("Output events emitted:"):
             declared = int(l.split(":")[1])
     return collections.Counter(outs), declared
+
+
+INCOMPLETE = "incomplete"
+
+
+def run_cli(binpath, tmpdir, idx, vpl, evt, workers, preload, extra):
+    """One configuration. The CLI prints the events its collector task has received 100 ms after the
+    engines finished; under machine load that list can be short. The number of events the engines
+    emitted is exact in --quiet mode (engine counters), so the listing is accepted only when it is
+    complete, and repeated otherwise. Returns (Counter | None | INCOMPLETE, info)."""
+    pv = os.path.join(tmpdir, "p%d.vpl" % idx)
+    pe = os.path.join(tmpdir, "e%d.evt" % idx)
+    open(pv, "w").write(vpl)
+    open(pe, "w").write(evt)
+    q, nq = run_cli_once(binpath, pv, pe, workers, preload, extra, quiet=True)
+    if q is None:
+        return None, nq
+    last = None
+    for _ in range(5):
+        out, declared = run_cli_once(binpath, pv, pe, workers, preload, extra)
+        if out is None:
+            return None, declared
+        last = out
+        if sum(out.values()) == nq:
+            return out, nq
+    return INCOMPLETE, "listing had %d of %d events in 5 attempts" % (sum(last.values()), nq)
 
 
 def check(run):
@@ -167,7 +188,7 @@ def check(run):
         i, tag, w, pre, evt = jobs[job_idx]
         p, _, kind, extra = cases[i]
         return run_cli(binpath, tmpdir, i * 1000 + job_idx, D.vpl_program(p), evt, w, pre, extra)
-    with concurrent.futures.ThreadPoolExecutor(max_workers=6) as ex:
+    with concurrent.futures.ThreadPoolExecutor(max_workers=4) as ex:
         results = list(ex.map(do, range(len(jobs))))
     res = {}
     for (i, tag, w, pre, evt), r in zip(jobs, results):
@@ -182,6 +203,10 @@ def check(run):
             for op in s.get("ops", []):
                 run.count("op=" + op[0])
         ref, _declared = res[i]["ref"][0]
+        if ref == INCOMPLETE:
+            run.count("incomplete-summary(reference)")
+            run.case(None)
+            continue
         if ref is None:
             run.count("program-rejected")
             if run.hist["program-rejected"] <= 2:
@@ -192,7 +217,7 @@ def check(run):
         run.case(nontrivial, sample={"vpl": D.vpl_program(p), "events": evt[:300], "args": extra, "outputs": sum(ref.values())} if len(run.samples) < 3 and nontrivial else None)
         # per-key decomposition (hypothesis of C18_partitioned), single worker throughout
         keyruns = [(t, v) for t, v in res[i].items() if t.startswith("key=")]
-        if keyruns and all(v[0][0] is not None for _, v in keyruns):
+        if keyruns and all(v[0][0] is not None and v[0][0] != INCOMPLETE for _, v in keyruns):
             union = collections.Counter()
             for _, v in keyruns:
                 union += v[0][0]
@@ -200,7 +225,7 @@ def check(run):
             if union != ref:
                 # retry once (lost summary lines)
                 ref2, _ = run_cli(binpath, tmpdir, i * 1000 + 900, D.vpl_program(p), evt, 1, True, extra)
-                if ref2 is not None and union != ref2:
+                if ref2 is not None and ref2 != INCOMPLETE and union != ref2:
                     run.tie_broken("per-key decomposability (hypothesis of C18_partitioned) does not hold for a generated program",
                                    D.vpl_program(p) + evt[:400] + "\nunion of per-key runs %s\nsingle run %s" % (sorted(union.elements())[:8], sorted(ref.elements())[:8]))
         for tag, ((out, declared), w, pre, _e) in res[i].items():
@@ -208,6 +233,12 @@ def check(run):
                 continue
             run.count("workers=%d" % w)
             run.count("mode=%s" % ("preload" if pre else "streaming"))
+            if out == INCOMPLETE:
+                run.count("incomplete-summary")
+                continue
+            if out is None:
+                run.tie_broken("CLI failed with %d workers on a program it runs with 1 worker" % w, D.vpl_program(p) + str(declared))
+                continue
             if out == ref:
                 continue
             # repeat both runs before judging (the CLI's summary can lose lines under load)
@@ -219,9 +250,16 @@ def check(run):
                 if r1 is not None and r1 == r2:
                     again = "equal"
                     break
+                if r1 == INCOMPLETE or r2 == INCOMPLETE or r1 is None or r2 is None:
+                    again = "incomplete"
+                    continue
                 again = (r1, r2)
+                break
             if again == "equal":
-                run.count("flaky-summary(retried)")
+                run.count("flaky(retried)")
+                continue
+            if again == "incomplete":
+                run.count("incomplete-summary")
                 continue
             r1, r2 = again
             n_fail += 1
@@ -254,7 +292,7 @@ def replay(run, path):
     for _ in range(2):
         a, _ = run_cli(binpath, tmpdir, 1, r["vpl"], r["events"], 1, True, r["args"])
         b, _ = run_cli(binpath, tmpdir, 2, r["vpl"], r["events"], r["workers"], r["preload"], r["args"])
-        if a is not None and a != b:
+        if a is not None and b is not None and a != INCOMPLETE and b != INCOMPLETE and a != b:
             fails += 1
     if fails == 2:
         run.violation("%d workers emit another multiset than 1 worker" % r["workers"], r, classes=classes_of(r["program"], r["workers"]))
